@@ -86,7 +86,11 @@ fn run(input: RunInput) -> ScenFuture {
         // ... which may hold requests back (a throttle): the time spent there counts against the
         // caller's deadline like any other
         let hold_us = if spec_c.user_outbound_layer && w.flag("user_layer_holds_requests_back", 0.5) { w.param("user_layer_hold_ms", 1, 400) as u64 * 1000 } else { 0 };
+        // ... or keep the caller's task busy on an always-ready resource for that long
+        let layer_busy = hold_us > 0 && w.flag("user_layer_is_busy_not_asleep", 0.3);
+        let hold_us = if layer_busy { hold_us.min(100_000) } else { hold_us };
         spec_c.user_outbound_delay = Duration::from_micros(hold_us);
+        spec_c.user_outbound_busy = layer_busy;
         let client = w.start_node(spec_c, Svc::echo(&w)).unwrap();
         if client.net.connect_with_peer_id(server.addr, server.peer_id).await.is_err() {
             w.harness_error("setup connect failed");
@@ -98,6 +102,13 @@ fn run(input: RunInput) -> ScenFuture {
         let (lmin, lmax) = (lat_min_us * 1000, lat_max_us * 1000);
         let margin = if constant { 3 * MS } else { 3 * lmax + 30 * MS };
         let mut r = w.rng("wl:calls");
+        // in some runs a part of the handlers is busy on an always-ready resource instead of
+        // sleeping (world::busy_on_a_hot_resource): deadlines hold for a handler that never
+        // returns Pending on its own too. The process is one busy thread then, timers fire at the
+        // next turn of the timer driver: 40 ms of slack for those calls
+        let busy_run = w.flag("handlers_busy_on_a_hot_resource", 0.15);
+        let mut r_busy = w.rng("wl:busy");
+        let margin_base = margin;
         let mut retired_raw = Vec::new();
         let mut cut = 0u64;
         let mut skipped = 0u64;
@@ -108,9 +119,17 @@ fn run(input: RunInput) -> ScenFuture {
                 1 => r.gen_range(0..20_000),
                 _ => r.gen_range(0..4_000_000),
             };
+            let busy_call = busy_run && r_busy.gen_bool(0.3);
+            let h_us = if busy_call { (h_us / 1000).min(300) * 1000 } else { h_us };
+            let slack = if busy_call || layer_busy { 40 * MS } else { 0 };
+            let margin = margin_base + slack;
             let (hdr, class) = header_value(&mut r, d_in, d_out, h_us / 1000);
             let api = r.gen_range(0..3);
-            let mut req = Request::new(Bytes::from(format!("c{i}"))).with_header("x-nonce", i.to_string()).with_header("x-delay-us", h_us.to_string());
+            let mut req = Request::new(Bytes::from(format!("c{i}"))).with_header("x-nonce", i.to_string());
+            req = if busy_call { req.with_header("x-busy-ms", (h_us / 1000).to_string()) } else { req.with_header("x-delay-us", h_us.to_string()) };
+            if busy_call {
+                w.probe("call-with-busy-handler");
+            }
             if let Some(v) = &hdr {
                 req = req.with_header("timeout", v.clone());
             }
@@ -124,7 +143,7 @@ fn run(input: RunInput) -> ScenFuture {
             };
             let t1 = w.now_ns();
             // let the cancellation (if any) reach the server before reading its log
-            sleep_us(2 * lat_max_us + 3000).await;
+            sleep_us(2 * lat_max_us + 3000 + slack / 1000).await;
             let seen = h.seen().into_iter().find(|s| s.nonce == Some(i));
             let h_ns = h_us * 1000;
             let key = format!("hdr={class} in={} out={}", d_in.is_some(), d_out.is_some());
@@ -184,7 +203,7 @@ fn run(input: RunInput) -> ScenFuture {
                     } else if e == "timeout-error" {
                         cut += 1;
                         let at = caller_deadline.unwrap();
-                        if t1 + 0 < at || t1 > at + 2 * MS {
+                        if t1 + 0 < at || t1 > at + 2 * MS + slack {
                             w.violate("caller-timeout-at-wrong-instant", key.clone(), format!("call {i}: timeout error at {} us after the call, model deadline {} us", (t1 - t0) / 1000, dc.unwrap() / 1000));
                         }
                     }
@@ -210,7 +229,7 @@ fn run(input: RunInput) -> ScenFuture {
                                 let server_first = server_cut.map(|sc| abandon_at.map(|a| sc.saturating_add(margin) < a).unwrap_or(true)).unwrap_or(false);
                                 if server_first {
                                     let sc = server_cut.unwrap();
-                                    if d < sc || d > sc + 2 * MS {
+                                    if d < sc || d > sc + 2 * MS + slack {
                                         w.violate("handler-dropped-at-wrong-instant", key.clone(), format!("call {i}: handler dropped {} us after its start, model server deadline {} us", (d - start) / 1000, ds.unwrap() / 1000));
                                     }
                                 }
